@@ -85,6 +85,12 @@ def rand_metrics_model(r, nmax=120):
         else:
             ast = r.choice([a, ["NOT", a]])
         ctcs.append({"name": f"k{k}", "ast": ast})
+    if ctcs and r.random() < 0.2:
+        # constraints of different kinds under one and the same name
+        nm = r.choice(["rule", "", "c"])
+        for c in ctcs:
+            if r.random() < 0.8:
+                c["name"] = nm
     spec["ctcs"] = ctcs
     if r.random() < 0.15 and len(names) >= 3:
         # feature names that happen to parse as numbers are still feature names
@@ -358,6 +364,20 @@ def run_history(acc, pool, seq, payload):
                      payload, S.digest(payload))
             return
     acc.held("history", S.digest(payload))
+    # the second public entry point, called directly and repeatedly on ONE object (execute() makes a new worker
+    # object per execution, this does not)
+    direct = FMMetrics()
+    for k, m in enumerate(models):
+        ok, rep = guard(acc, "history:direct-entry-point", W, [], payload, lambda: list(direct.calculate_metamodel_metrics(m)))
+        if not ok:
+            return
+        if norm_report(rep) != fresh[k]:
+            diff = [n for n in fresh[k] if norm_report(rep).get(n) != fresh[k][n]][:3]
+            acc.fail("history:direct-entry-point", "history:report-depends-only-on-current-model", W + ".calculate_metamodel_metrics", [],
+                     "differs", f"step {k}: metrics {diff} differ from a fresh object's report of the same model",
+                     payload, S.digest([payload, "direct"]))
+            return
+    acc.held("history:direct-entry-point", S.digest([payload, "direct"]))
 
 
 def cases(desc):
